@@ -17,6 +17,11 @@ constexpr nterm<int> decl("decl"), ma("ma"), mb("mb"), mc("mc");
 constexpr parser p3(decl, terms('a', 'b', 'c', 'k'), nterms(decl, ma, mb, mc), rules(
     decl(ma, mb, mc, 'k') >= [](int a, int b, int c, skip) { return a * 100 + b * 10 + c; },
     ma() >= val(0), ma('a') >= val(1), mb() >= val(0), mb('b') >= val(1), mc() >= val(0), mc('c') >= val(1)));
+// recovery at the very first term, nothing discarded, right-recursive tail: the deepest stack a single recovery can produce
+constexpr nterm<int> root4("root"), tail4("tail");
+constexpr parser p4(root4, terms('x', 'y', 'z'), nterms(root4, tail4), rules(
+    root4('x', tail4) >= [](skip, int n) { return n; }, root4(error, 'y', tail4) >= [](skip, skip, int n) { return 1000 + n; },
+    tail4('z') >= val(1), tail4('z', tail4) >= [](skip, int n) { return n + 1; }));
 template<class P, size_t N> static void one(const P& p, const char* name, const char (&lit)[N]) {
   std::string got, want;
   { auto r = p.parse(string_buffer(lit)); want = r ? std::to_string(*r) : "none"; }
@@ -28,6 +33,7 @@ int main() {
   one(p1, "seq", "aaaaaaab"); one(p1, "seq", "a"); one(p1, "seq", ""); one(p1, "seq", "ca"); one(p1, "seq", "aaa c"); one(p1, "seq", "bb");
   one(p2, "list", ";"); one(p2, "list", "xx;"); one(p2, "list", "x;;"); one(p2, "list", "xxx"); one(p2, "list", "x;x;x"); one(p2, "list", ";;"); one(p2, "list", "xx;x");
   one(p3, "decl", "k"); one(p3, "decl", "ak"); one(p3, "decl", "bk"); one(p3, "decl", "ck"); one(p3, "decl", "abck"); one(p3, "decl", "a c k"); one(p3, "decl", ""); one(p3, "decl", "kk");
+  one(p4, "tail", "xzzz"); one(p4, "tail", "yz"); one(p4, "tail", "yzzz"); one(p4, "tail", "yzzzzzzzzz"); one(p4, "tail", "zyzz"); one(p4, "tail", "zzz"); one(p4, "tail", "y");
   // constant evaluation of the boundary cases
   constexpr auto c1 = p1.parse(cstring_buffer("aaab")); static_assert(c1.has_value() && *c1 == 103);
   constexpr auto c2 = p2.parse(cstring_buffer("xx;")); static_assert(c2.has_value());
